@@ -184,9 +184,11 @@ def run(ctx):
                                 ctx.violation("slice-node", f"slice of a {data.dtype} grid {data.shape} along axis {key!r} at node {axes[ax_i][k]!r}: " + ("values differ from the stored sub-grid" if not ok else "remaining axes/names wrong"), {"shape": list(data.shape), "axis": ax_i, "node": k, "by_name": by_name})
                         except Exception as e:
                             ctx.exception("slice-node", f"slice along axis {key!r} at node {k} raised", e, {"shape": list(data.shape), "axis": ax_i, "names": names})
-                    for _ in range(2):
+                    # two coordinates anywhere between nodes and three close to (not on) a node: within
+                    # 1e-6 / 1e-9 of the bracket, where a tolerance-based "is it a node?" test would snap
+                    for t_fixed in (None, None, 1e-6, 1.0 - 1e-6, 1e-9):
                         k = int(rng.integers(0, n - 1))
-                        t = float(rng.uniform(0, 1))
+                        t = float(rng.uniform(0, 1)) if t_fixed is None else t_fixed
                         x = axes[ax_i][k] + t * (axes[ax_i][k + 1] - axes[ax_i][k])
                         x = float(min(max(x, axes[ax_i][k]), axes[ax_i][k + 1]))
                         tt = (x - float(axes[ax_i][k])) / (float(axes[ax_i][k + 1]) - float(axes[ax_i][k]))
